@@ -230,3 +230,32 @@ def run(ctx):
         else:
             ctx.ok("R12.2", "flatten/all-" + label, "every iteration handles its item")
     ctx.assume("signs and rounding of the matrix entries are value-level and not decided; only which inputs each entry depends on, and the composition order")
+
+    # ---- R12.3 signed quantities stay signed
+    ctx.rule("R12.3", "angles, matrix entries and coordinates are signed: the transform code contains no conversion of a float or signed integer to an unsigned integer (such a cast clamps every negative value to zero)")
+    n_casts = 0
+    UNS = ("u8", "u16", "u32", "u64", "u128", "usize")
+    for f in F.fns.values():
+        if not f.id.startswith("layout21raw::geom::") or f.derived:
+            continue
+        b = Body(f)
+        for bi, blk in enumerate(b.blocks):
+            if blk["cleanup"]:
+                continue
+            for st in blk["st"]:
+                if st["k"] != "assign" or st["rv"]["k"] != "cast":
+                    continue
+                rv = st["rv"]
+                ck, fr, to = rv.get("ck"), (rv.get("from") or {}).get("s", ""), (rv.get("to") or {}).get("s", "")
+                if ck in ("FloatToInt", "IntToInt", "IntToFloat"):
+                    n_casts += 1
+                src = b.def_call(rv["o"])
+                if src is not None and re.search(r"::(rem_euclid|abs|unsigned_abs)$", callee_name(src) or ""):
+                    continue  # provably non-negative
+                if to in UNS and (ck == "FloatToInt" or (ck == "IntToInt" and fr.startswith("i"))):
+                    key = "%s/%s->%s" % (f.short, fr, to)
+                    ctx.violation("R12.3", key, "%s converts a signed %s to %s: negative values (a clockwise angle such as -90, a negative coordinate) become 0, so the transform built from them is wrong" % (f.short, fr, to), b.site(bi), key)
+    ctx.floor("R12.3", "numeric_casts_in_geom", n_casts, 4)
+    if n_casts:
+        ctx.ok("R12.3", "no-sign-losing-cast", "%d numeric casts inspected" % n_casts)
+
